@@ -28,7 +28,14 @@ TGssvx == Is("gssvx") /\ LET c == CallOf(R) IN
             /\ R.ver = mat.ver
             /\ (c.lw # "query" /\ c.fact # "FACTORED" => mat'.eq = R.equed)
 TDestroy == Is("destroy") /\ Destroy /\ (ObsDestroy(R) = TRUE)
-TNext == TMat \/ TVals \/ TPermc \/ TGssv \/ TGssvx \/ TDestroy
+TSInit == Is("sinit") /\ SInit(R.refact = 1, R.usepr = 1, IF R.lwmode = 1 THEN "user" ELSE "sys") /\ (ObsSInit(R, R.refact = 1) = TRUE) /\ R.ver = mat.ver
+TSFactor == Is("sfactor") /\ SFactor /\ (ObsSFactor(R, R.n) = TRUE) /\ R.ver = mat.ver
+                /\ R.refact = (IF ses.refact THEN 1 ELSE 0) /\ R.usepr = (IF ses.usepr THEN 1 ELSE 0)
+TSSolve == Is("ssolve") /\ SSolve(R.trans) /\ (ObsSSolve(R) = TRUE) /\ R.factver = lu.ver
+TSCon == Is("scon") /\ SCon(R.norm) /\ (ObsSCon(R) = TRUE)
+TSDrop == Is("sdropac") /\ SDropAC /\ (ObsSDrop(R) = TRUE)
+TSFinal == Is("sfinal") /\ SFinal /\ (ObsSFinal(R) = TRUE)
+TNext == TMat \/ TVals \/ TPermc \/ TGssv \/ TGssvx \/ TDestroy \/ TSInit \/ TSFactor \/ TSSolve \/ TSCon \/ TSDrop \/ TSFinal
 TSpec == TInit /\ [][TNext]_tvars
 
 Progress == TLCSet(1, IF TLCGet(1) > l THEN TLCGet(1) ELSE l)
